@@ -32,11 +32,13 @@ class _Safe:
             return f
         label = "%s.%s" % (self._mod.__name__.rsplit(".", 1)[-1], name)
 
-        def wrapped(repo, col, *a, **k):
+        def wrapped(*a, **k):
+            col = a[1] if len(a) > 1 else k.get("col")
             try:
-                return f(repo, col, *a, **k)
+                return f(*a, **k)
             except AnalysisError as exc:
-                if "anchor vanished" not in str(exc):
+                if "anchor vanished" not in str(exc) or \
+                        not hasattr(col, "add"):
                     raise
                 col.add("E-ANCHOR", label, str(exc)[:120], True,
                         "the rule %s is anchored in code that no longer "
@@ -76,6 +78,19 @@ class Spec:
             from .report import Collector
             scope_keys = mechanism_closure(repo, self.pid)
             real, col = col, Collector(col.prop)
+            # modules the reference tree does not have hold code that was
+            # moved out of the anchor files: they are looked at as well
+            # (still only inside the mechanism's closure)
+            from .core import is_new_module
+            anchors = list(anchors) + [
+                m_.short for m_ in repo.modules.values()
+                if m_.short not in anchors and is_new_module(m_.name)]
+            # ... and the modules the mechanism's functions live in
+            for k_ in sorted(scope_keys.keys):
+                ms_ = k_.split(":", 1)[0]
+                if ms_ not in anchors:
+                    anchors.append(ms_)
+            S.shared_mutable_state(repo, col, anchors)
             M2.swapped_arguments(repo, col, shorts=anchors)
             M3.little_endian_literals(repo, col, anchors)
             M4.optional_float_truthiness(repo, col, anchors)
@@ -93,6 +108,13 @@ class Spec:
             M5.deferred_error_checked(repo, col, anchors)
             M5.module_table_mutated(repo, col, anchors)
             M5.param_reordered_in_place(repo, col, anchors)
+            M5.memory_order_dependent(repo, col, anchors)
+            M5.one_sided_index_check(repo, col, anchors)
+            M5.mutation_during_iteration(repo, col, anchors)
+            M5.stale_loop_variable(repo, col, anchors)
+            M5.identity_as_key(repo, col, anchors)
+            M5.memo_invalidated(repo, col, anchors)
+            M5.shared_default_object_mutated(repo, col, anchors)
             for o in col.obs:
                 ln = None
                 if o.loc and o.loc.rsplit(":", 1)[-1].isdigit():
@@ -180,6 +202,8 @@ UNITS_INFO = [("volume_reader", "nibabel_image_to_info", "vs", 1e6),
        "memory-mapped vs full-load equality"],
       ["NumPy promotion / safe-cast / iinfo tables embedded in rules_dtype"])
 def c01(repo, col):
+    D.converter_option_sites(repo, col)
+    M5.rescale_before_load(repo, col)
     M5.numpy_scalar_vs_int_bound(repo, col)
     A.check_modules(repo, col, ['_compressed_segmentation'])
     M4.round_clip_in_work_dtype(repo, col)
@@ -299,6 +323,7 @@ def c03(repo, col):
        "the reorder buffer's run-time state)", "gzip payload validity"],
       ["sharded v1 format as published in the Neuroglancer repository"])
 def c04(repo, col):
+    M5.sharding_spec_keys(repo, col)
     S.protocol_conformance(repo, col)
     O.flush_chain(repo, col)
     M4.minishard_final_before_use(repo, col)
@@ -381,6 +406,7 @@ def c05(repo, col):
       ["the downscaler's values", "that the scale generator only emits "
        "compatible scale pairs"])
 def c06(repo, col):
+    M5.scale_pair_consistent(repo, col)
     M4.pad_after_promotion(repo, col)
     M3.driver_chain(repo, col, shorts=["dyadic_pyramid", "scripts.compute_scales"])
     M3.downscaler_dispatch(repo, col)
@@ -418,6 +444,7 @@ def c06(repo, col):
       ["NumPy promotion tables embedded in rules_dtype",
        "np.unique returns sorted labels; np.argmax returns the first maximum"])
 def c07(repo, col):
+    D.converter_option_sites(repo, col)
     M5.numpy_scalar_vs_int_bound(repo, col)
     M4.round_clip_in_work_dtype(repo, col)
     M4.pad_after_promotion(repo, col)
@@ -447,6 +474,7 @@ def c07(repo, col):
        "separately proved)", "NumPy uint64 shift semantics for widths >= 64"],
       ["NumPy defines uint64 shifts by >= 64 as 0"])
 def c09(repo, col):
+    M5.sharding_spec_keys(repo, col)
     M5.cmc_entry_nonneg(repo, col)
     M4.lowercase_hex_names(repo, col, shorts=('sharded_base',))
     B.strict_morton_bound(repo, col)
@@ -515,6 +543,7 @@ def c10(repo, col):
        "half-to-even)", "strided inputs"],
       ["NumPy promotion / safe-cast / iinfo tables embedded in rules_dtype"])
 def c11(repo, col):
+    D.converter_option_sites(repo, col)
     M5.numpy_scalar_vs_int_bound(repo, col)
     M4.round_clip_in_work_dtype(repo, col)
     D.converter_lattice(repo, col)
@@ -621,6 +650,7 @@ def c13(repo, col):
       ["byte equality with local reads", "server behaviours beyond status "
        "and length"])
 def c14(repo, col):
+    M5.sharding_spec_keys(repo, col)
     M5.vacuous_all_in_predicate(repo, col)
     M4.sibling_accessors_same_location(repo, col)
     M4.nonempty_range_before_read(repo, col)
@@ -663,6 +693,7 @@ def c14(repo, col):
       ["numpy.moveaxis / basic slicing semantics on axis labels as modelled "
        "in rules_orient"])
 def c15(repo, col):
+    M5.index_space_agreement(repo, col)
     M3.driver_chain(repo, col, shorts=["scripts.slices_to_precomputed"])
     M3.squeeze_without_axis(repo, col, ["scripts.slices_to_precomputed"])
     S.orientation_tables(repo, col)
@@ -816,6 +847,8 @@ def c19(repo, col):
        "no state shared between calls"],
       ["readable_count's digit / width promise (arithmetic over format())"])
 def c20(repo, col):
+    M4.convert_all_chunk_sizes(repo, col)
+    M5.scale_pair_consistent(repo, col)
     M5.remainder_any(repo, col)
     M4.readable_count_format_types(repo, col)
     M3.driver_chain(repo, col, shorts=["scripts.scale_stats"])
